@@ -968,6 +968,15 @@ class ServerSSM(SSM):
             self.response(abort)
             return
 
+        # a new transaction starts with the first segment, anything else is
+        # the tail of a transfer that is already over (a retransmission that
+        # crossed the response) and is not the beginning of a request
+        if apdu.apduSeq != 0:
+            if _debug: ServerSSM._debug("    - not the first segment")
+            abort = self.abort(AbortReason.invalidApduInThisState)
+            self.response(abort)
+            return
+
         # save the request and set the segmentation context
         self.set_segmentation_context(apdu)
 
